@@ -1278,6 +1278,9 @@ class Executor(Exec):
         c = self.contract
         if c is None:
             raise Unsupported(f"loop at line {getattr(s, 'lineno', 0)} in code without a contract (no invariant)")
+        if getattr(self, "inline_stack", None):
+            raise Unsupported(f"loop at line {getattr(s, 'lineno', 0)} inside {self.inline_stack[-1]}, a helper without "
+                              "contract (the invariants of the caller's contract are written for the caller's own loops)")
         if ordinal not in c.loops:
             if c.kind == "lemma" or getattr(self, "in_inline", 0):
                 raise Unsupported(f"loop at line {getattr(s, 'lineno', 0)}: no invariant available")
